@@ -24,8 +24,12 @@ import (
 
 func init() {
 	const expl = "(FLOW, value flow): in package query a ConditionsSet that derives, through a chain of method calls, from the stored top-level conditions of a tag or query (TagDetails.Conditions, Query.Conditions) is handed to ConditionsSet.invert only over an edge on which it was found non-empty. At top level 'no alternative' means 'matches nothing' (the stored form of an impossible query, of an empty mark tag), while invert reads the empty set as the parser's 'no restriction' and returns it unchanged: the negation of a pending tag that matches nothing then selects nothing instead of every pending stream."
-	register("C03", "C03-k "+expl, func(p *Prog, r *Res) { ruleTopLevelSetNotInvertedEmpty(p, r, "C03-k stored-set-not-negated-while-empty") })
-	register("C06", "C06-n "+expl, func(p *Prog, r *Res) { ruleTopLevelSetNotInvertedEmpty(p, r, "C06-n stored-set-not-negated-while-empty") })
+	register("C03", "C03-k "+expl, func(p *Prog, r *Res) {
+		ruleTopLevelSetNotInvertedEmpty(p, r, "C03-k stored-set-not-negated-while-empty")
+	})
+	register("C06", "C06-n "+expl, func(p *Prog, r *Res) {
+		ruleTopLevelSetNotInvertedEmpty(p, r, "C06-n stored-set-not-negated-while-empty")
+	})
 }
 
 func ruleTopLevelSetNotInvertedEmpty(p *Prog, r *Res, rule string) {
